@@ -506,6 +506,9 @@ func sameCaseRun(lo, hi rune) bool {
 // Inputs.
 
 // Alphabet collects the terminal runes of a grammar plus one foreign symbol.
+// foldSpecials are runes whose lower case is the lower case of a differently spelled letter.
+var foldSpecials = []rune{0x212A, 0x0130, 0x212B, 0x2126, 0x1E9E, 0x03F4, 0x01C5, 0x01C8, 0x01CB, 0x01F2}
+
 func (g *Grammar) Alphabet() []rune {
 	set := map[rune]bool{}
 	for _, r := range g.Rules {
@@ -517,6 +520,12 @@ func (g *Grammar) Alphabet() []rune {
 					if e.IgnoreCase {
 						set[unicode.ToUpper(x)] = true
 						set[unicode.ToLower(x)] = true
+						// runes outside the simple upper/lower pair that fold onto x (Kelvin sign -> k, ...)
+						for _, s := range foldSpecials {
+							if s != x && unicode.ToLower(s) == unicode.ToLower(x) {
+								set[s] = true
+							}
+						}
 					}
 				}
 			case Class:
